@@ -294,5 +294,10 @@ def c094(ctx):
     ctx.floor(R, "R-ERR call sites on read paths", n1, 150)
     from .C09_exc import PANIC_EXC as EXC
     n2 = K.panic_audit(ctx, R + "p", fns, EXC)
+    # implicit panics on raw byte buffers read from files
+    from .C09_exc import BOUNDS_EXC
+    ctx.declare(R + "b", "bytes read from a file are never indexed beyond the length a dominating comparison established for that same buffer")
+    nb, pb = K.bounds_audit(ctx, R + "b", fns, BOUNDS_EXC, elem=r"^u8$")
+    ctx.floor(R + "b", "byte-buffer index / slice sites on read paths", nb, 8)
     ctx.instances.setdefault(R + "p", {"why": "", "sites": [], "matched": 0, "failed": 0})["why"] = \
         "explicit-panic audit over the same reach set (each exception names one construct in one function with its reason)"
